@@ -102,11 +102,17 @@ bad = op('bad', w=st.integers(0, 200), wx=st.one_of(NONE, NONE, NONE, NONE, st.i
          rsz=st.sampled_from([0, 1, 2, 3, 3, 4, 5, 6]), usz=st.integers(0, 2), lead=I, salt=I)
 
 
-def finish(cfg, ops, avoid=True):
+def finish(cfg, ops, avoid=True, rs=0):
     out = []
+    nre = 0
     for i, o in enumerate(ops):
         o = dict(o)
         o['n'] = i + 1
+        if o.get('k') == 'reopen':
+            # `same`: the written image is opened with the *same* PyCdlib object after close() (documented re-use)
+            if (rs >> (nre % 8)) & 1:
+                o['same'] = 1
+            nre += 1
         out.append(o)
     from vf.avoid import active
     return {'cfg': cfg, 'ops': out, 'avoid': active(avoid)}
@@ -115,8 +121,11 @@ def finish(cfg, ops, avoid=True):
 AVOID = st.sampled_from([True] * 7 + [False])
 
 
+RS = st.sampled_from([0, 0, 0xff, 0xff, 1, 2, 5])
+
+
 def program(cfg, ops_st):
-    return st.builds(finish, cfg, ops_st, AVOID)
+    return st.builds(finish, cfg, ops_st, AVOID, RS)
 
 
 def mixed_ops(reopen_ok=False, boot=True):
@@ -281,6 +290,8 @@ def with_reopens(base, min_r=1, max_r=3):
         for k, pos in enumerate(sorted(positions)):
             i = min(len(ops), (pos * (len(ops) + 1)) // 1000 + k)
             ro = {'k': 'reopen'}
+            if (pos // 3) % 2 == 1:
+                ro['same'] = 1
             if pos % 3 == 0:
                 # open a re-laid-out ("foreign") version of the image instead (when eligible)
                 ro['relayout'] = [pos, pos // 3, pos // 7, 11, 5, pos % 13, 2, 7]
